@@ -64,6 +64,15 @@ else
   exit 3
 fi
 export VERIF_TAGS="$TAGS"
+# the gts binary itself (CLI properties C14, C15), built from the same tree
+export VERIF_GTS_BIN="$V/bin/gts.$$"
+cleanup() { rm -f "$BIN" "$VERIF_GTS_BIN" "$V/bin/build.$$.log"; rm -rf "$OVL"; [ -n "$SCR" ] && rm -rf "$SCR"; }
+case "${2:-}" in
+  C14|C15)
+    if ! (cd "$REPO" && go build -o "$VERIF_GTS_BIN" ./cmd/gts) 2> "$V/bin/build.$$.log"; then
+      echo "HARNESS-ERROR: build of the gts binary from $REPO failed:" >&2; cat "$V/bin/build.$$.log" >&2; exit 3
+    fi;;
+esac
 cmd=${1:-}
 case "$cmd" in
   check)
